@@ -468,8 +468,9 @@ def report(chk, own, lives, events, where, viol, texts):
             what = (f"JIT names for request {_short(e['recipe'])} differ between processes: {f['modname']} "
                     f"{f['objnames']} in {f['proc']} {cf} vs {e['modname']} {e['objnames']} in {e['proc']} {cx}")
         elif prop == "Separating":
-            a, b = sorted([_short(f["recipe"]), _short(e["recipe"])])
-            key = f"collision:{a}|{b}"
+            ra, rb = sorted([f["recipe"], e["recipe"]], key=_short)
+            dif = [f"{k}={ra.get(k)}|{rb.get(k)}" for k in ("tmpl", "n", "pts", "opt", "flag") if ra.get(k) != rb.get(k)]
+            key = f"collision:{ra['tmpl']}:" + ",".join(dif)
             what = (f"requests {_short(f['recipe'])} and {_short(e['recipe'])} generate different code "
                     f"(class {f['klass'][:12]} vs {e['klass'][:12]}) but share the module name {e['modname']}")
             pay["class_parts"] = [f.get("klass_parts"), e.get("klass_parts")]
@@ -478,11 +479,11 @@ def report(chk, own, lives, events, where, viol, texts):
                                     _short(f["recipe"]), _short(e["recipe"]))
         elif prop == "DistinctObjects":
             dup = sorted({n for n in e["defs"] if e["defs"].count(n) > 1})
-            key = f"dupnames:{_short(e['recipe'])}"
+            key = f"dupnames:{e['recipe']['tmpl']}:n{e['recipe'].get('n', 1)}"
             what = f"module {e['modname']} for request {_short(e['recipe'])} defines a file-scope name twice: {dup[:4]}"
             pay["defs"] = e["defs"]
         else:
-            key = f"badident:{_short(e['recipe'])}"
+            key = f"badident:{e['recipe']['tmpl']}"
             what = f"module {e['modname']} for request {_short(e['recipe'])} has an object name that is not a C identifier"
             pay["defs"] = e["defs"]
         if OWNER[prop] == own:
@@ -598,17 +599,22 @@ def _evidence(chk, lives, events, act):
 
 
 def c13_axes(quick):
+    """The request algebra, as constants of History.tla (Req = Sig x 1..MaxObjs x Vis x Hid x Opt x Flag), one
+    sub-algebra per axis of variation; every axis contains the plain request, so all of them meet in the registries."""
     forms = meta.REQ_FORMS
-    ax = {
-        "points": dict(Sig=["expr_tri", "expr_int"], Vis=meta.PTS_BASE, Hid=["none", "eps", "mid"], Opt=["default"],
+    some = ["mass_lit2", "two_forms", "prism"]
+    return {
+        "points": dict(Sig=["expr_tri", "expr_int"], Vis=meta.PTS_BASE, Hid=meta.PTS_HID, Opt=["default"],
                        Flag=["O2"], MaxObjs=1),
-        "options": dict(Sig=forms + ["expr_tri"], Vis=["tri6"], Hid=["none"], Opt=list(meta.OPTS), Flag=["O2"], MaxObjs=1),
-        "flags": dict(Sig=["mass_lit2", "two_forms", "expr_tri"], Vis=["tri6"], Hid=["none"], Opt=["default", "float32"],
-                      Flag=list(meta.FLAGS), MaxObjs=1),
-        "listing": dict(Sig=forms + ["expr_tri"], Vis=["tri6", "tri6_dyadic"], Hid=["none", "eps"], Opt=["default", "complex128"],
-                        Flag=["O2", "none"], MaxObjs=2),
+        "options": dict(Sig=(some if quick else forms) + ["expr_tri"], Vis=["tri6"], Hid=["none"], Opt=list(meta.OPTS),
+                        Flag=["O2"], MaxObjs=1),
+        "literals": dict(Sig=forms, Vis=["tri6"], Hid=["none"], Opt=["default"], Flag=["O2"], MaxObjs=1),
+        "flags": dict(Sig=["mass_lit2", "expr_tri"] if quick else ["mass_lit2", "two_forms", "expr_tri"], Vis=["tri6"],
+                      Hid=["none"], Opt=["default"] if quick else ["default", "float32"], Flag=list(meta.FLAGS), MaxObjs=1),
+        "listing": dict(Sig=(some if quick else forms) + ["expr_tri"], Vis=["tri6", "tri6_dyadic"], Hid=["none", "eps"],
+                        Opt=["default"] if quick else ["default", "complex128"], Flag=["O2"] if quick else ["O2", "none"],
+                        MaxObjs=2),
     }
-    return ax
 
 
 def run_c13(chk):
@@ -635,13 +641,16 @@ def run_c13(chk):
     res = run_parallel(jobs)
     enum = dedupe([x for (h, _) in res[0::2] for hh in h for x in lives_of(hh)])    # depth 2: Spawn + one event
     sim = dedupe([x for (h, _) in res[1::2] for hh in h for x in lives_of(hh)])
-    must = [x for x in enum if x["events"][0]["act"] == "Name"]
-    recipes = {json.dumps(x["events"][0]["recipe"], sort_keys=True) for x in must}
+    single = {json.dumps(x["events"][0]["recipe"], sort_keys=True): x for x in enum if x["events"][0]["act"] == "Name"}
+    recipes = set(single)
     chk.add(transitions=sum(r.generated for _, r in res), states=sum(r.distinct for _, r in res[0::2]),
             requests_in_algebra=len(recipes), histories_simulated=sum(len(h) for h, _ in res[1::2]),
             candidate_lives=len(enum) + len(sim))
-    lives, seen, spent = select(enum + sim, 80 if quick else 2000, must)
-    chk.add(context_items_covered=len(seen))
+    lives, seen, spent = select(enum + sim, 60 if quick else 1800)
+    # every request of the algebra is made at least once
+    have = {sub[1] for x in lives for _, sub, _ in contexts(x) if sub[0] == "N"}
+    lives += [single[k] for k in sorted(recipes - have)]
+    chk.add(context_items_covered=len(seen), requests_only_made_alone=len(recipes - have))
     lives, events, where, viol = execute_and_judge(chk, "C13", lives, 24 if quick else 250, "c13")
     _evidence(chk, lives, events, "Name")
     classes = {e["klass"] for e in events if e.get("hasclass")}
